@@ -197,14 +197,14 @@ def h_clamp(ctx):
     ctx.observe("y", y)
 
 
-def h_nack(ctx, n, wrapnear):
+def h_nack(ctx, n, wrapnear, far=False):
     """NACK: the same set of 16-bit sequence numbers on both sides, also across wraparound."""
     origin = ctx.int("origin", 0, U16)
     if wrapnear:
         ctx.assume(origin >= 0xFF00, "origin within 256 of the wrap point (denser forks near the boundary)")
     lost = [origin]
     for i in range(1, n):
-        g = ctx.int("gap%d" % i, 1, 40)
+        g = ctx.int("gap%d" % i, 1, U16 if far else 40)  # far: anywhere else in the 16-bit space
         lost.append((lost[-1] + g) & U16)
     p = RtcpRtpfbPacket(fmt=1, ssrc=ctx.int("ssrc", 0, U32), media_ssrc=ctx.int("mssrc", 0, U32), lost=lost)
     data = sx.to_bytes(p)  # must not raise for any serially increasing list
@@ -352,9 +352,9 @@ HARNESSES = {
     "nack": Harness(
         "nack",
         h_nack,
-        lambda tier: [{"n": n, "wrapnear": w} for n in ([1, 2, 3] if tier == "quick" else [1, 2, 3, 4]) for w in (False, True)],
+        lambda tier: [{"n": n, "wrapnear": w} for n in ([1, 2, 3] if tier == "quick" else [1, 2, 3, 4]) for w in (False, True)] + [{"n": 2, "wrapnear": False, "far": True}],
         style="RT",
-        bounds="lost = <=3 (quick) / <=4 strictly serially increasing 16-bit numbers, gaps 1..40, origin symbolic (and a second run with origin >= 0xFF00)",
+        bounds="lost = <=3 (quick) / <=4 strictly serially increasing 16-bit numbers, gaps 1..40, origin symbolic (and a second run with origin >= 0xFF00); plus two numbers any distance 1..65535 apart",
         encoded=ENC,
         twin="nack-no-missing-number",
     ),
